@@ -73,6 +73,16 @@ Definition read_fixed (k : nat) (s : str) : option (N * str) := read_fixed_acc k
 Definition s_true : str := [116;114;117;101]%N.
 Definition s_false : str := [102;97;108;115;101]%N.
 Definition bool_encode (b : bool) : str := if b then s_true else s_false.
+(* Boolean.encode on its whole signature: value is True / False, or str(value).lower() is "true" / "false" (bytes, ints ... -> TypeError).
+   str.lower is modelled on ASCII: no non-ASCII character lower-cases to a letter of "true" or "false". *)
+Inductive binput := BBool (b : bool) | BStr (s : str) | BOther.
+Definition lower_str (s : str) : str := map (fun c => if (65 <=? c)%N && (c <=? 90)%N then (c + 32)%N else c) s.
+Definition bool_encode_any (i : binput) : option str :=
+  match i with
+  | BBool b => Some (bool_encode b)
+  | BStr s => if str_eqb (lower_str s) s_true then Some s_true else if str_eqb (lower_str s) s_false then Some s_false else None
+  | BOther => None
+  end.
 Definition bool_decode (t : str) : option bool :=
   if str_eqb t s_true then Some true else if str_eqb t s_false then Some false else None.
 Definition bool_lexical (t : str) : bool := str_eqb t s_true || str_eqb t s_false.
